@@ -410,6 +410,7 @@ theorem Inv3_step {O : Oracle} {c : Conf} {s : State} {op : Op} (ho : OracleOK O
       · next s1 hr => exact Inv3_store (rmLease_good h0.1 hr)
   | sleep d => exact h0
   | restart => exact restart_good ho h0
+  | resetLeases => exact Inv3_store (by intro x hx; simp [State.init] at hx)
   | reorder d =>
     obtain ⟨h1, _, _, _, _, _, h7⟩ := reorderDisk_spec d { s with stale := [] }
     refine ⟨by show GoodL O c (reorderDisk d { s with stale := [] }).leases; rw [h1]; exact h0.1, ?_⟩
